@@ -18,16 +18,19 @@ Roots(ev) == {n \in Nodes(ev) : ev.nodes[n].parent = 0}
 LCat(ev, n) == ToSet(ev.nodes[n].lcat)
 OCat(ev, n) == ToSet(ev.nodes[n].cat)          \* observed inherited category classes
 
-(* DiffTree!Cat by bottom-up recursion over the dumped forest (children have larger indices) *)
-RECURSIVE CatOf(_, _)
-CatOf(ev, n) == LCat(ev, n) \cup UNION {CatOf(ev, c) : c \in Children(ev, n)}
+(* DiffTree!Cat, one propagation step: a node's inherited category comes from its own local category and its children's    *)
+(* categories -- or from those of another node of its class of equivalence (the canonical diff node carries the category of *)
+(* the class; a later occurrence of the same pair of types is not traversed again).                                         *)
+SameClass(ev, n) == {m \in Nodes(ev) : m = n \/ (ev.nodes[n].cls # 0 /\ ev.nodes[m].cls = ev.nodes[n].cls)}
+CatOf(ev, n) == UNION {LCat(ev, m) \cup UNION {OCat(ev, c) : c \in Children(ev, m)} : m \in SameClass(ev, n)}
 
 Allowed(ev) == (IF ev.allowHarmful THEN {"HARMFUL", "VIRTUAL"} ELSE {}) \cup (IF ev.allowHarmless THEN {"HARMLESS"} ELSE {})
 (* DiffTree!Filtered on the observed inherited category and marks *)
 FilteredRule(ev, n) ==
-  \/ ev.nodes[n].sup
-  \/ (ev.nodes[n].red /\ ~ev.showRed)
-  \/ (OCat(ev, n) # {} /\ OCat(ev, n) \cap Allowed(ev) = {})
+  /\ ~(ev.allowHarmless /\ ev.allowHarmful)          \* every category allowed: nothing is filtered (not even redundant nodes)
+  /\ \/ ev.nodes[n].sup
+     \/ (ev.nodes[n].red /\ ~ev.showRed)
+     \/ (OCat(ev, n) # {} /\ OCat(ev, n) \cap Allowed(ev) = {})
 
 Changed(ev, kind) == {r \in Roots(ev) : ev.nodes[r].kind = kind /\ ev.nodes[r].hasChanges}
 FilteredRoots(ev, kind) == {r \in Changed(ev, kind) : ev.nodes[r].filtered}
